@@ -209,6 +209,7 @@ class Interp:
         self.inline = inline
         self.depth = 0
         self.copy_types = set()      # ADTs passed by value are copied at calls (set by the user for Copy types)
+        self.self_ty = []            # implementing type while a provided trait method is interpreted
 
     def _format_args(self, b, env):
         """a `format_args!` expansion evaluates to its text (arguments printed with str(); only plain `{}` placeholders)"""
@@ -244,7 +245,7 @@ class Interp:
 
     def local_call(self, key, argvals):
         f = self.facts['fns'][key]
-        if self.depth >= 6:
+        if self.depth >= 24:
             raise NoEval('call depth')
         if len(f['params']) != len(argvals):
             raise NoEval('arity of %s' % key)
@@ -335,7 +336,19 @@ class Interp:
                 raise NoEval('None pattern on a non-option')
             return v == ('const', c)
         if k == 'Lit':
-            return hir.lit_int({'k': 'Lit', 'v': p['v']}) == v
+            lv_ = hir.lit_int({'k': 'Lit', 'v': p['v']})
+            if lv_ is None:
+                lb_ = hir.lit_bool({'k': 'Lit', 'v': p['v']})
+                if lb_ is not None:
+                    return lb_ == v
+                ls_ = hir.lit_str({'k': 'Lit', 'v': p['v']})
+                if ls_ is not None:
+                    return ls_ == v
+                raise NoEval('literal pattern %s' % hir.pp_pat(p))
+            v = v.get() if isinstance(v, Cell) else v
+            return (-lv_ if p.get('neg') else lv_) == v
+        if k == 'Range':
+            raise NoEval('range pattern')
         if k == 'Or':
             return any(self.bind(sp, v, env) for sp in p['sub'])
         if k == 'Slice':
@@ -487,6 +500,11 @@ class Interp:
                     if not in_range(r_, ty_):
                         raise Panics('arithmetic overflow in %s' % (e.get('ty'),))
                     return r_
+                if op in ('Div', 'Rem') and isinstance(a, int) and isinstance(b, int) and not isinstance(a, bool) and not isinstance(b, bool):
+                    if b == 0:
+                        raise Panics('attempt to divide by zero')
+                    q_ = abs(a) // abs(b) * (1 if (a >= 0) == (b >= 0) else -1)      # Rust truncates toward zero
+                    return q_ if op == 'Div' else a - b * q_
                 return {'Add': lambda: a + b, 'Sub': lambda: a - b, 'Mul': lambda: a * b, 'Div': lambda: a // b, 'Rem': lambda: a % b,
                         'Eq': lambda: a == b, 'Ne': lambda: a != b, 'Lt': lambda: a < b, 'Le': lambda: a <= b, 'Gt': lambda: a > b, 'Ge': lambda: a >= b}[op]()
             except (KeyError, TypeError, ZeroDivisionError):
@@ -659,7 +677,18 @@ class Interp:
         if c.endswith('vec::from_elem') and len(e['args']) == 2:
             return [self.ev(e['args'][0], env)] * self.ev(e['args'][1], env)
         fnode = hir.strip(e['fun'])
+        if fnode.get('k') == 'Path' and fnode['res'].get('k') == 'SelfCtor' and self.facts is not None and (e.get('ty') or '') in self.facts.get('adts', {}):
+            d_ = {'__struct__': e['ty']}
+            for i_, x in enumerate(e['args']):
+                d_[str(i_)] = self.ev(x, env)
+            return d_
         if fnode.get('k') == 'Path' and 'Ctor' in (fnode['res'].get('dk') or ''):
+            if 'Ctor(Struct' in (fnode['res'].get('dk') or '') and self.facts is not None and (e.get('ty') or '') in self.facts.get('adts', {}):
+                # a tuple struct of the analysed crate: a struct value with positional fields
+                d_ = {'__struct__': e['ty']}
+                for i_, x in enumerate(e['args']):
+                    d_[str(i_)] = self.ev(x, env)
+                return d_
             return ('ctor', fnode['res'].get('path'), tuple(self.ev(x, env) for x in e['args']))
         if c in getattr(self, 'host_fns', {}):
             return self.host_fns[c]([self.ev(x, env) for x in e['args']])
@@ -694,8 +723,29 @@ class Interp:
             fn = self.ev(f, env)
             if callable(fn):
                 return fn(*[self.ev(x, env) for x in e['args']])
+        t_ = (e.get('ty') or '').strip()
+        if t_ == 'Self' and self.self_ty:
+            t_ = self.self_ty[-1]
         if self._inlinable(c):
-            return self.local_call(c, [self.ev(x, env) for x in e['args']])
+            # (a provided trait method keeps track of the implementing type through its result type)
+            push_ = self.facts is not None and t_ in self.facts.get('adts', {}) and not c.startswith('<')
+            if push_:
+                self.self_ty.append(t_)
+            try:
+                return self.local_call(c, [self.ev(x, env) for x in e['args']])
+            finally:
+                if push_:
+                    self.self_ty.pop()
+        if c.rsplit('::', 1)[-1] == 'from' and len(e['args']) == 1 and self.facts is not None and (e.get('ty') or '').strip() in self.facts.get('adts', {}):
+            at_ = (hir.strip(e['args'][0]).get('ty') or e['args'][0].get('ty') or '').strip()
+            k_ = self._impl_method(e['ty'].strip(), 'from', 'std::convert::From<%s>' % at_)
+            if k_ is not None:
+                return self.local_call(k_, [self.ev(e['args'][0], env)])
+        # an associated function of a trait called on a type of the analysed crate (`Scalar4::zero()`, `Self::sqrt2()`): the impl for the result type
+        if self.facts is not None and t_ in self.facts.get('adts', {}):
+            k_ = self._impl_method(t_, c.rsplit('::', 1)[-1])
+            if k_ is not None and len(self.facts['fns'][k_]['params']) == len(e['args']):
+                return self.local_call(k_, [self.ev(x, env) for x in e['args']])
         raise NoEval('call %s' % c)
 
     def method(self, e, env):
@@ -717,6 +767,12 @@ class Interp:
             if not recv.strict:
                 raise Proceed('%s.%s' % (recv.name, nm))
             raise NoEval('method %s on %s' % (nm, recv.name))
+        if nm == 'into' and not args and self.facts is not None and (e.get('ty') or '').strip() in self.facts.get('adts', {}) \
+                and not (isinstance(recv, dict) and recv.get('__struct__') == e['ty'].strip()) and not isinstance(recv, Obj):
+            rt_ = (hir.strip(e['recv']).get('ty') or e['recv'].get('ty') or '').strip()
+            k_ = self._impl_method(e['ty'].strip(), 'from', 'std::convert::From<%s>' % rt_)
+            if k_ is not None:
+                return self.local_call(k_, [recv])
         if nm == 'peekable' and isinstance(recv, list) and not args:
             return PeekIter(recv)
         if nm in ('clone', 'to_owned', 'copied', 'cloned', 'iter', 'into_iter', 'iter_mut', 'by_ref', 'as_slice', 'to_vec', 'as_ref', 'as_mut', 'borrow', 'peekable', 'into', 'as_deref') and not args:
@@ -1050,6 +1106,20 @@ class Interp:
             c_ = env[l['res']['id']]
             c_.set(v if op is None else op(c_.get(), v))
             return
+        if deref_ and l.get('k') == 'Path' and l['res'].get('k') == 'Local' and isinstance(env.get(l['res']['id']), (dict, list)) and not _is_opt(env.get(l['res']['id'])):
+            # `*r = value` through a reference to a container / struct: the referent changes, not the binding
+            cur_ = env[l['res']['id']]
+            nv_ = v if op is None else op(cur_, v)
+            if isinstance(cur_, dict) and isinstance(nv_, dict):
+                if nv_ is not cur_:
+                    nv_ = dict(nv_)
+                    cur_.clear()
+                    cur_.update(nv_)
+                return
+            if isinstance(cur_, list) and isinstance(nv_, list):
+                if nv_ is not cur_:
+                    cur_[:] = list(nv_)
+                return
         if l.get('k') == 'Path' and l['res'].get('k') == 'Local':
             i = l['res']['id']
             env[i] = v if op is None else op(env[i], v)
@@ -1105,7 +1175,9 @@ class Interp:
                     return None
             f = {'AddAssign': lambda a, b: a + b, 'SubAssign': lambda a, b: a - b, 'MulAssign': lambda a, b: a * b,
                  'BitXorAssign': lambda a, b: (a != b) if isinstance(a, bool) else a ^ b, 'BitAndAssign': lambda a, b: (a and b) if isinstance(a, bool) else a & b,
-                 'BitOrAssign': lambda a, b: (a or b) if isinstance(a, bool) else a | b, 'DivAssign': lambda a, b: a // b, 'RemAssign': lambda a, b: a % b,
+                 'BitOrAssign': lambda a, b: (a or b) if isinstance(a, bool) else a | b,
+                 'DivAssign': lambda a, b: (abs(a) // abs(b) * (1 if (a >= 0) == (b >= 0) else -1)) if isinstance(a, int) else a / b,
+                 'RemAssign': lambda a, b: (a - b * (abs(a) // abs(b) * (1 if (a >= 0) == (b >= 0) else -1))) if isinstance(a, int) else a % b,
                  'ShlAssign': lambda a, b: a << b, 'ShrAssign': lambda a, b: a >> b}.get(s['op'])
             if not f:
                 raise NoEval(s['op'])
